@@ -275,8 +275,14 @@ def gen_history(rng: random.Random, lf: int, n_ops: int, n_tok: int, invalid_rat
             if rng.random() < 0.35:
                 inner = live[a:b + 1]
                 rng.shuffle(inner)
-                new = new + inner[:rng.randrange(0, len(inner) + 1)]
-                rng.shuffle(new)
+                if rng.random() < 0.4:
+                    # a pure permutation of the range (the comment claimers move zero-width placeholders past newline and
+                    # comment tokens this way): the printed text keeps its line count whatever the order
+                    free[len(free):] = new
+                    new = list(inner)
+                else:
+                    new = new + inner[:rng.randrange(0, len(inner) + 1)]
+                    rng.shuffle(new)
             ops.append(('splice', new, live[a], live[b]))
             removed = [t for t in live[a:b + 1] if t not in new]
             live[a:b + 1] = new
